@@ -33,6 +33,7 @@ func (vc *VC) watched(full string) (string, bool) {
 
 // matchWatch: does the event name full (callee, value or "send:"+channel name) match watch name w?
 func matchWatch(w, full string) bool {
+	w = strings.TrimSuffix(w, "!") // "name!": only calls made lexically by the function under verification
 	for _, pre := range []string{"send:", "recv:"} {
 		ws, fs := strings.HasPrefix(w, pre), strings.HasPrefix(full, pre)
 		if ws != fs {
@@ -65,6 +66,9 @@ func (f *frame) noteEvent(kind string, callee any, args []Term, results []Term) 
 	}
 	w, ok := vc.watched(full)
 	if !ok {
+		return
+	}
+	if strings.HasSuffix(w, "!") && !f.top {
 		return
 	}
 	f.recordEvent(w, args, results)
@@ -123,6 +127,10 @@ func valueName(v ssa.Value) string {
 		return x.String()
 	case *ssa.Extract:
 		return valueName(x.Tuple) + fmt.Sprintf("#%d", x.Index)
+	case *ssa.Lookup:
+		return valueName(x.X) + "[]"
+	case *ssa.IndexAddr:
+		return valueName(x.X) + "[]"
 	case *ssa.Call:
 		if sc := x.Call.StaticCallee(); sc != nil {
 			return "ret." + normName(sc.String())
@@ -1158,7 +1166,7 @@ func (P *Program) eventNames(fn *ssa.Function) map[string]bool {
 func (f *frame) taintEvents(callees []*ssa.Function, skip map[string]bool) {
 	vc := f.vc
 	for w := range vc.watch {
-		if skip[w] {
+		if skip[w] || strings.HasSuffix(w, "!") {
 			continue
 		}
 		may := false
